@@ -20,12 +20,12 @@ def Bot.prelude (b : Bot) (m : Msg) : Bot :=
 /-- `_tagMsg` does not raise: `Irc.isChannel` of the first argument is defined -/
 def Bot.tagOK (b : Bot) (m : Msg) : Prop := b.tagRaises m = false
 
-theorem addMsg_eq (b : Bot) (m : Msg) : b.addMsg m = (b.prelude m).stateCmd m := rfl
+theorem addMsg_eq (b : Bot) (m : Msg) : b.addMsgT false m = (b.prelude m).stateCmd m := rfl
 
 theorem feed_plain (b : Bot) (m : Msg) (h0 : b.tagOK m) (h1 : m.pfx ≠ b.nick) (h2 : m.cmd ∉ Gen.nickSetters)
     (h3 : ((b.pfxUpd m).ircCmd m).2 = false) :
     (b.feed m).1 = ((((b.pfxUpd m).ircCmd m).1.prelude m).stateCmd m).1 := by
-  unfold Bot.feed
+  unfold Bot.feed Bot.feedT
   unfold Bot.tagOK at h0
   simp only [h0, Bool.false_eq_true, h1, ↓reduceIte, h2]
   have e : (if (m.nick = b.nick && b.pfx != m.pfx) = true then { b with pfx := m.pfx } else b) = b.pfxUpd m := rfl
@@ -36,7 +36,7 @@ theorem feed_setter (b : Bot) (m : Msg) (h0 : b.tagOK m) (h1 : m.pfx ≠ b.nick)
     (a0 : Str) (rest : List Str) (ha : m.args = a0 :: rest) (hn : a0 = b.nick) (hp : (b.pfxUpd m).nick = b.nick)
     (h3 : ((b.pfxUpd m).ircCmd m).2 = false) :
     (b.feed m).1 = ((((b.pfxUpd m).ircCmd m).1.prelude m).stateCmd m).1 := by
-  unfold Bot.feed
+  unfold Bot.feed Bot.feedT
   unfold Bot.tagOK at h0
   simp only [h0, Bool.false_eq_true, h1, ↓reduceIte, h2, ha]
   have e : (if (m.nick = b.nick && b.pfx != m.pfx) = true then { b with pfx := m.pfx } else b) = b.pfxUpd m := rfl
